@@ -81,11 +81,11 @@ Theorem C18_v6_cover_refuted :
 Proof. exact v6_cover_refuted. Qed.
 Print Assumptions C18_v6_cover_refuted.
 
-(* a valid CIDR text (scoped IPv6 host address) on which expand() raises a non-Sigma exception *)
-Theorem C18_v6_scoped_host_crash :
-  exists s a sc, parse_cidr s = Some (Net6 a 128 (Some sc)) /\ cidr_expand s = Crash C_IndexError.
-Proof. exact v6_scoped_host_crash. Qed.
-Print Assumptions C18_v6_scoped_host_crash.
+(* expand() raises nothing on a validated network (holds since the repair of D29: before it a scoped
+   /128 such as fe80::1%eth0/128 raised IndexError) *)
+Theorem C18_expand_total : forall n, exists pats, expand n = Ok pats.
+Proof. exact expand_total. Qed.
+Print Assumptions C18_expand_total.
 
 (* non-vacuity: the premises are inhabited by a non-trivial network: 10.0.0.0/7 gives the two patterns "10." and "11." followed by the wildcard *)
 Example C18_premises_inhabited :
